@@ -5,7 +5,7 @@ From RecordUpdate Require Import RecordSet.
 From SV Require Import Base.Base IR.State IR.NS IR.Ops Xform.Clone Proofs.AssocX Proofs.Frame Proofs.Inv1a Proofs.Inv2a
   Proofs.InvP Proofs.InvW Proofs.Fresh Proofs.NsInv Proofs.Repoint Proofs.CloneInv Proofs.RefK Proofs.CloneRef Proofs.CloneT Proofs.FieldT
   Proofs.CloneMemo Proofs.CloneRR Proofs.CloneFaith Proofs.CloneInvP Proofs.CloneFull
-  Proofs.CloneMemoK Proofs.CloneFaithK Proofs.CloneStage Proofs.CloneStageP Proofs.CloneRun Proofs.CloneRemap.
+  Proofs.CloneMemoK Proofs.CloneFaithK Proofs.CloneStage Proofs.CloneStageP Proofs.CloneRun Proofs.CloneEx Proofs.CloneRemap.
 Import ListNotations RecordSetNotations.
 
 Lemma defimg_stable s0 d d' s m s2 m2 :
@@ -53,7 +53,7 @@ Record RY (s0 s : state) (m : memo) : Prop := mkRY {
 Lemma ry_start s0 : UF s0 -> RY s0 s0 [].
 Proof.
   intro U. constructor.
-  - constructor; [apply ri_start; exact U|intros d d' []].
+  - constructor; [apply ri_start; exact U|intros d d' []|apply ex_start].
   - intros x x' [].
   - intros d d' [].
   - intros d d' [].
@@ -85,7 +85,7 @@ Section RYDef.
   Proof.
     pose proof (ry_rx _ _ _ Y) as X. pose proof (rx_ri _ _ _ X) as R.
     destruct (def_stage s0 s G m m' d d' U0 R Hd Hkd Hfree E) as [RG [SO [DI [Hd' [Hin [Hn [Hf [Hpd [Hdr [Hdo Hks]]]]]]]]]].
-    pose proof (ri_st _ _ _ R) as ST0. destruct U0 as [I0 [T0 _]].
+    pose proof (ri_st _ _ _ R) as ST0. destruct U0 as [I0 [T0 [F0' [FT0' K0']]]].
     assert (Hentry : forall a b, In (a, b) m' -> kind_of s0 a = Some KDefinition -> In (a, b) m \/ (a = d /\ b = d')).
     { intros a b H Hk. destruct (in_memo_dec m a b) as [Hi|Hi]; [left; exact Hi|right].
       assert (Ha : In a (map fst m')) by (apply in_map_iff; exists (a, b); split; [reflexivity|exact H]).
@@ -96,8 +96,10 @@ Section RYDef.
         pose proof (memo_fun m' a b b1 (so_fun _ _ _ _ _ _ SO) H (so_sub _ _ _ _ _ _ SO _ Ha)) as ->. contradiction. }
     split; [|split; [exact Hd'|split; [exact Hin|split; [apply (so_sub _ _ _ _ _ _ SO)|split; [apply (so_keys _ _ _ _ _ _ SO)|split; [exact Hks|split; [exact Hn|split; [exact Hpd|exact Hf]]]]]]]].
     constructor.
-    - constructor; [exact RG|]. intros a b H Hk. destruct (Hentry a b H Hk) as [Hi|[-> ->]]; [|exact DI].
-      apply (defimg_stable s0 a b s m G m' (rx_di _ _ _ X a b Hi Hk) (ri_kl _ _ _ R)); [apply (st_rng _ _ _ ST0 a b Hi)|apply (so_sub _ _ _ _ _ _ SO)|exact Hks].
+    - constructor; [exact RG| |].
+      + intros a b H Hk. destruct (Hentry a b H Hk) as [Hi|[-> ->]]; [|exact DI].
+        apply (defimg_stable s0 a b s m G m' (rx_di _ _ _ X a b Hi Hk) (ri_kl _ _ _ R)); [apply (st_rng _ _ _ ST0 a b Hi)|apply (so_sub _ _ _ _ _ _ SO)|exact Hks].
+      + apply (ex_of_stage s0 s G m m' _ ST0 (rx_ex _ _ _ X) SO (inv_p _ I0) FT0' F0' K0').
     - intros x x' H Hk. destruct (in_memo_dec m x x') as [Hi|Hi].
       + destruct (st_rng _ _ _ ST0 x x' Hi) as [_ [_ Hlt]]. destruct (so_old _ _ _ _ _ _ SO x' Hlt) as [_ [_ [_ [_ Hir]]]]. rewrite Hir.
         destruct (ry_ir _ _ _ Y x x' Hi Hk) as [H1|[e [e' [A [B C]]]]]; [left; exact H1|right; exists e, e'; split; [exact A|split; [apply (so_sub _ _ _ _ _ _ SO); exact B|exact C]]].
@@ -229,6 +231,7 @@ Section Attach.
       + intros d Hd. rewrite Fd. apply (ri_dr _ _ _ R d Hd).
     - intros d d' Hdd Hk. apply (defimg_inner s0 d d' s t m); [|apply (rx_di _ _ _ X d d' Hdd Hk)].
       intros r0 y H1 H2. apply Hkin. left. rewrite Hr. exact H1.
+    - apply (ex_same s0 s t m (rx_ex _ _ _ X) (st_fun _ _ _ ST0)); assumption.
     - intros x x' H Hk. rewrite Fr. apply (ry_ir _ _ _ Y x x' H Hk).
     - intros d d' H Hk n. rewrite Fd. apply (ry_d1 _ _ _ Y d d' H Hk n).
     - intros d d' H Hk n. rewrite Fd. apply (ry_d2 _ _ _ Y d d' H Hk n).
@@ -254,8 +257,13 @@ Proof.
   { intros a b [E|H] Hka; [|exact H]. injection E as <- <-. rewrite Hk in Hka. destruct HK as [-> | ->]; destruct Hka as [Q|Q]; discriminate Q. }
   split; [|repeat split; assumption].
   constructor.
-  - constructor; [exact R'|]. intros d d' H Hkd0. pose proof (Hnd d d' H (or_introl Hkd0)) as Hi0.
-    apply (defimg_stable s0 d d' s m _ _ (rx_di _ _ _ X d d' Hi0 Hkd0) (ri_kl _ _ _ R)); [apply (st_rng _ _ _ (ri_st _ _ _ R) d d' Hi0)|exact Hsub|exact Hks].
+  - constructor; [exact R'| |].
+    + intros d d' H Hkd0. pose proof (Hnd d d' H (or_introl Hkd0)) as Hi0.
+      apply (defimg_stable s0 d d' s m _ _ (rx_di _ _ _ X d d' Hi0 Hkd0) (ri_kl _ _ _ R)); [apply (st_rng _ _ _ (ri_st _ _ _ R) d d' Hi0)|exact Hsub|exact Hks].
+    + destruct (clone_alloc_fields _ _ _ _ Ea) as [_ [_ [_ [_ [W1 [P1 [I1 R1]]]]]]].
+      apply (ex_grow s0 s _ m ((x, x') :: m) (rx_ex _ _ _ X) Hsub (st_fun _ _ _ (ri_st _ _ _ R'))).
+      * intros a b _. cbn. rewrite W1, P1, I1, R1. repeat split.
+      * intros a b [E|H] Hno; [|contradiction]. injection E as <- <-. rewrite Hk. destruct HK as [-> | ->]; repeat split; discriminate.
   - intros a b H Hka. pose proof (Hnd a b H (or_intror Hka)) as Hi0. rewrite Hi.
     destruct (ry_ir _ _ _ Y a b Hi0 Hka) as [H1|[e [e' [A [B C]]]]]; [left; exact H1|right; exists e, e'; split; [exact A|split; [right; exact B|exact C]]].
   - intros d d' H Hkd0 n Hnn. pose proof (Hnd d d' H (or_introl Hkd0)) as Hi0. rewrite Hd in Hnn.
